@@ -520,3 +520,6 @@ def r5(rep, fx):
                 '%s can succeed without inserting a dictionary entry (bb%s): the new definition does not shadow the old one'
                 % (short(fn), '->bb'.join(map(str, p[:8]))), fn, f.j['span'])
     rep.floor('C01.R5 variable-defining functions', n, 1)
+
+# as-built addendum
+EXPLANATION += ' As built (DESIGN 9.2): R2 also: emitted code stays - `code` is cut back only by the roll-back of a rejected source and the purge of a meta block. R5 bindings: InitLocal(i) re-binds slot i and what it appends is slot i itself; at compile time a name has one slot; a variable definition allocates a fresh cell, enters the dictionary and compiles that cell.'
